@@ -456,7 +456,7 @@ def perturbation():
             cols = ln.split("\t")
             if kind == "qual":
                 cols[5] = "77"
-            elif kind == "gt" and len(cols) > 9 and re.match(r"^\d+/[01]\b", cols[9]):
+            elif kind == "gt" and len(cols) > 9 and cols[4] != "." and re.match(r"^\d+/[01]\b", cols[9]):
                 cols[9] = re.sub(r"^(\d+)/([01])", lambda m: f"{m.group(1)}/{1 - int(m.group(2))}", cols[9])
             elif kind == "phased" and len(cols) > 9:
                 cols[9] = cols[9].replace("/", "|", 1)
